@@ -247,7 +247,7 @@ func scenPty(out *scenOut, rr *rng, thorough bool) {
 	var list []sc
 	for _, mode := range []string{"default", "nohandler", "nosignals", "default-alt"} {
 		for _, sig := range []string{"int", "term"} {
-			for _, phase := range []string{"idle", "in-update", "released"} {
+			for _, phase := range []string{"idle", "in-update", "released", "released-then-again"} {
 				list = append(list, sc{mode, sig, phase})
 			}
 		}
@@ -310,7 +310,7 @@ func ptySignal(out *scenOut, mode, sig, phase string) {
 			out.fail(finding{Property: "C18", Class: "harness", What: "child did not reach the blocking Update", Input: desc})
 			return
 		}
-	case "released":
+	case "released", "released-then-again":
 		r.pair.master.Write([]byte("e"))
 		if !r.waitLog("exec-running", 3*time.Second) {
 			out.fail(finding{Property: "C18", Class: "harness", What: "child did not reach the exec", Input: desc})
@@ -326,7 +326,7 @@ func ptySignal(out *scenOut, mode, sig, phase string) {
 	// the in-progress callback returns
 	os.WriteFile(r.gate, []byte("x"), 0o644)
 	out.record(desc, desc)
-	ignoring := mode == "nosignals" || phase == "released"
+	ignoring := mode == "nosignals" || phase == "released" || phase == "released-then-again"
 	if mode == "nohandler" {
 		// no handler installed: the default action applies and the process dies of the signal
 		select {
@@ -347,11 +347,17 @@ func ptySignal(out *scenOut, mode, sig, phase string) {
 			return
 		case <-time.After(250 * time.Millisecond):
 		}
-		if phase == "released" {
+		if phase == "released" || phase == "released-then-again" {
 			r.waitLog("exec-done", 2*time.Second)
 			time.Sleep(50 * time.Millisecond)
 		}
-		r.pair.master.Write([]byte("q"))
+		if phase == "released-then-again" && mode != "nosignals" {
+			// the terminal is restored: signals count again
+			r.cmd.Process.Signal(s)
+			ignoring = false
+		} else {
+			r.pair.master.Write([]byte("q"))
+		}
 	}
 	select {
 	case err := <-r.exited:
